@@ -19,6 +19,10 @@ pub struct Cfg {
     pub len: usize,
     pub count: u32,
     pub interleave: u8,
+    /// 0 no carousel, 1 DelayBetweenTransfers(500 ms), 2 IntervalBetweenStartTimes(1 s); the sender is
+    /// then polled at 0, 2 s and 4 s (three carousel turns of `count` transfers each)
+    #[serde(default)]
+    pub carousel: u8,
 }
 
 #[derive(Serialize, Deserialize, Clone, Debug)]
@@ -83,6 +87,11 @@ fn spec(cfg: &Cfg) -> ObjSpec {
     let mut o = ObjSpec::simple(cfg.len, 7);
     o.oti = Some(OtiSpec::new(cfg.scheme, cfg.e, cfg.b, cfg.parity, true));
     o.count = cfg.count;
+    o.carousel = match cfg.carousel {
+        0 => None,
+        1 => Some(Carousel::Delay(500)),
+        _ => Some(Carousel::Interval(1000)),
+    };
     o
 }
 
@@ -91,10 +100,15 @@ fn emit(cfg: &Cfg, desc: Box<ObjectDesc>) -> Result<Vec<Vec<u8>>, String> {
     s.add_object(0, desc).map_err(|e| format!("add_object: {}", e.0))?;
     s.publish(t0()).map_err(|e| e.0.to_string())?;
     let mut pk = Vec::new();
-    if !drain(&mut s, t0(), &mut pk, 100_000) {
-        return Err("not quiescent".into());
+    let polls: &[u64] = if cfg.carousel == 0 { &[0] } else { &[0, 2000, 4000] };
+    for ms in polls {
+        if !drain(&mut s, at_ms(*ms), &mut pk, 100_000) {
+            return Err("not quiescent".into());
+        }
     }
-    Ok(pk.into_iter().map(|p| p.1).collect())
+    // FDT packets of later polls carry a new instance (other Expires): only object packets are compared there
+    let first_poll = t0();
+    Ok(pk.into_iter().filter(|p| p.0 == first_poll || crate::rfc::decode(&p.1).map(|r| r.toi != 0).unwrap_or(true)).map(|p| p.1).collect())
 }
 
 pub fn reference(cfg: &Cfg) -> Result<Vec<Vec<u8>>, String> {
@@ -255,7 +269,11 @@ pub fn configs(thorough: bool) -> Vec<Cfg> {
                         if interleave == 2 && (count == 2 || !thorough && scheme != Scheme::NoCode) {
                             continue;
                         }
-                        v.push(Cfg { scheme, e, b, parity, len, count, interleave });
+                        v.push(Cfg { scheme, e, b, parity, len, count, interleave, carousel: 0 });
+                        // carousel turns: the source is re-read from its start in every transfer of every turn
+                        if interleave == 1 && (thorough || len % 3 == 0 || len == lmax) {
+                            v.push(Cfg { scheme, e, b, parity, len, count, interleave, carousel: 1 + (len % 2) as u8 });
+                        }
                     }
                 }
             }
